@@ -278,5 +278,73 @@ theorem same_bound (a b : Ty) (h : same a b = true) : bound a = bound b := by
 
 theorem same_refl (a : Ty) : same a a = true := (same_iff a a).2 (Same.refl a)
 
+/-! ### core types come back unchanged -/
+
+mutual
+  /-- no extension type (`tys.ExtType`) anywhere inside: a *core* type -/
+  def noExt : Ty → Bool
+    | .sum rows => noExtRows rows
+    | .function i o _ => noExtRow i && noExtRow o
+    | .poly _ i o _ => noExtRow i && noExtRow o
+    | .extType _ _ => false
+    | .opaque _ _ args _ => noExtArgs args
+    | _ => true
+  def noExtRow : List Ty → Bool
+    | [] => true
+    | t :: ts => noExt t && noExtRow ts
+  def noExtRows : List (List Ty) → Bool
+    | [] => true
+    | r :: rs => noExtRow r && noExtRows rs
+  def noExtArg : TypeArg → Bool
+    | .type t => noExt t
+    | .sequence es => noExtArgs es
+    | _ => true
+  def noExtArgs : List TypeArg → Bool
+    | [] => true
+    | a :: as => noExtArg a && noExtArgs as
+end
+
+mutual
+  theorem norm_of_noExt : ∀ (t : Ty), noExt t = true → norm t = t
+    | .sum rows, h => by simp only [noExt] at h; simp only [norm, normRows_of_noExt rows h]
+    | .unitSum _, _ => rfl
+    | .variable _ _, _ => rfl
+    | .rowVariable _ _, _ => rfl
+    | .usize, _ => rfl
+    | .alias _ _, _ => rfl
+    | .function i o r, h => by
+      simp only [noExt, Bool.and_eq_true] at h
+      simp only [norm, normRow_of_noExt i h.1, normRow_of_noExt o h.2]
+    | .poly ps i o r, h => by
+      simp only [noExt, Bool.and_eq_true] at h
+      simp only [norm, normRow_of_noExt i h.1, normRow_of_noExt o h.2]
+    | .extType _ _, h => by simp [noExt] at h
+    | .opaque id b args e, h => by simp only [noExt] at h; simp only [norm, normArgs_of_noExt args h]
+    | .qubit, _ => rfl
+  theorem normRow_of_noExt : ∀ (ts : List Ty), noExtRow ts = true → normRow ts = ts
+    | [], _ => rfl
+    | t :: ts, h => by
+      simp only [noExtRow, Bool.and_eq_true] at h
+      simp only [normRow, norm_of_noExt t h.1, normRow_of_noExt ts h.2]
+  theorem normRows_of_noExt : ∀ (rows : List (List Ty)), noExtRows rows = true → normRows rows = rows
+    | [], _ => rfl
+    | r :: rs, h => by
+      simp only [noExtRows, Bool.and_eq_true] at h
+      simp only [normRows, normRow_of_noExt r h.1, normRows_of_noExt rs h.2]
+  theorem normArg_of_noExt : ∀ (a : TypeArg), noExtArg a = true → normArg a = a
+    | .type t, h => by simp only [noExtArg] at h; simp only [normArg, norm_of_noExt t h]
+    | .boundedNat _, _ => rfl
+    | .string _, _ => rfl
+    | .sequence es, h => by simp only [noExtArg] at h; simp only [normArg, normArgs_of_noExt es h]
+    | .extensions _, _ => rfl
+    | .variable _ _, _ => rfl
+  theorem normArgs_of_noExt : ∀ (as : List TypeArg), noExtArgs as = true → normArgs as = as
+    | [], _ => rfl
+    | a :: as, h => by
+      simp only [noExtArgs, Bool.and_eq_true] at h
+      simp only [normArgs, normArg_of_noExt a h.1, normArgs_of_noExt as h.2]
+end
+
+
 end Ty
 end HugrVerif
